@@ -357,7 +357,17 @@ func typeOfBinary(v pt.Binary, env TEnv) (*pt.Type, ValKind, error) {
 			if lt.HasBottom() && !rt.HasBottom() {
 				res = rt
 			} else if lt.HasBottom() && rt.HasBottom() && !lt.Eq(rt) {
-				return nil, 0, &LatitudeErr{"concatenation of differently nested untyped empties"}
+				// the plain empty literal [] matches any array type, so it adopts the other operand's; two
+				// differently nested empties ([[]] + [{}]) are not settled by the specification
+				switch {
+				case lt.Sub == nil:
+					res = rt
+				case rt.Sub == nil:
+					res = lt
+				default:
+					return nil, 0, &LatitudeErr{"concatenation of differently nested untyped empties"}
+				}
+				return res, KConstExpr, nil // what it converts to is not judged; what it can never be assigned to is
 			}
 			if lk == KEmpty && rk == KEmpty {
 				return res, KEmpty, nil
